@@ -72,6 +72,98 @@ def dollar_word(a):
     return re.search(r'\$\{[^}]*\}|\$\[[^\]]*\]', a) is not None
 
 
+# ---- environment values that contain `$` themselves (the ini layer scans substituted text again) -------------------
+# pieces of application arguments and of the values of the variables C16A, C16B, C16C (C16A may refer to C16B and C16C,
+# C16B to C16C: no cycles unless one is asked for)
+DOLLAR_PIECES = ['${C16A}', '${C16B}', '${C16C}', '${C16U:d}', '${C16U}', '$[pika.os_threads]', '$[pika.nosuch:zz]',
+                 '$[pika.scheduler]', '$', '{', '}', '[', ']', ':', 'a', 'b', '${', '$[', 'C16A', 'pika.os_threads', 'x y',
+                 # placeholders inside the NAME / key of a placeholder (expand_brace / expand_bracket expand what follows first)
+                 '${${C16N}}', '${C16${C16M}}', '$[pika.${C16K}]', '${C16U:${C16C}}', '$[${C16U:pika.cores}]']
+SELF_REF = re.compile(r'^.+\$\{')      # a placeholder start behind the first character
+
+
+def self_referential(env):
+    """some variable's value contains a reference to a variable (possibly itself, possibly through others) behind its
+    first character in a cycle: the syntactic class of inputs on which the real expansion does not end"""
+    refs = {k: set(re.findall(r'\$\{([A-Za-z0-9_]+)', v[1:])) | set(re.findall(r'^\$\{([A-Za-z0-9_]+)', v)) for k, v in env.items()}
+    grow = {k for k, v in env.items() if re.search(r'\$\{', v[1:])}
+    # a cycle that passes through a variable whose reference sits behind its first character
+    for k in grow:
+        seen, todo = set(), [k]
+        while todo:
+            x = todo.pop()
+            for y in refs.get(x, ()):
+                if y == k:
+                    return True
+                if y in env and y not in seen:
+                    seen.add(y)
+                    todo.append(y)
+    return False
+
+
+def dollar_env_cases(rng, mach, first_id, quick):
+    cases = []
+
+    def add(env, args, src=None, fam='dollar_env', timeout=None):
+        e = dict(env)
+        e.update(mach['env'])
+        c = {'id': first_id + len(cases), 'env': e, 'args': list(args), 'src': src or {}, 'invalid': None, 'unknown': None,
+             'apps': [], 'items': list(args), 'tail': [], 'nasty': False, 'mach': mach['name'], 'taskset': mach['taskset'], 'fam': fam}
+        if timeout:
+            c['timeout'] = timeout
+        cases.append(c)
+
+    # fixed: the former model/implementation mismatch and its relatives (C16_expand_value_rescanned), the looping and the
+    # crashing inputs (C16_expand_self_reference_loops)
+    add({'X': '$[pika.os_threads]'}, ['${X}', '--pika:threads=3'], {'threads': {'cmdopt': '3'}})
+    add({'X': 'a$[pika.os_threads]'}, ['${X}', '--pika:threads=3'], {'threads': {'cmdopt': '3'}})
+    add({'X': '', 'Y': '${Z}', 'Z': '${W}', 'W': 'w'}, ['${X}${Y}', '--pika:threads=2'], {'threads': {'cmdopt': '2'}})
+    add({'X': 'a', 'Y': '${Z}', 'Z': '${W}', 'W': 'w'}, ['${X}${Y}', '--pika:threads=2'], {'threads': {'cmdopt': '2'}})
+    add({'X': '', 'HOME': '/h'}, ['$${X}{HOME}', '--pika:threads=2'], {'threads': {'cmdopt': '2'}})
+    add({'C16N': 'C16V', 'C16V': 'val'}, ['${${C16N}}', '$[pika.${C16K}]', '--pika:threads=2'], {'threads': {'cmdopt': '2'}})
+    add({'C16V': 'val'}, ['${C16U:${C16V}}', 'p${C16${C16M:V}}q', '--pika:threads=2'], {'threads': {'cmdopt': '2'}})
+    add({'C16A': '${C16A}'}, ['${C16A}', '--pika:threads=2'], {'threads': {'cmdopt': '2'}})
+    add({'PIKA_THREADS': '${C16T}', 'C16T': '3'}, [], {'threads': {'env': '3'}})
+    add({'PIKA_THREAD_QUEUE_MAX_THREAD_COUNT': '${C16J}', 'C16I': '1100', 'C16J': '${C16I}'}, ['--pika:threads=2'])   # entry = ${C16I}
+    add({'C16A': 'x${C16A}'}, ['${C16A}', '--pika:threads=2'], fam='dollar_loop', timeout=6)
+    add({'PIKA_TRACE_DEPTH': 'x${PIKA_TRACE_DEPTH}'}, ['--pika:threads=2'], fam='dollar_loop', timeout=6)
+    add({'C16A': 'p${C16B}', 'C16B': 'q${C16A}'}, ['${C16B}', '--pika:threads=2'], fam='dollar_loop', timeout=6)
+    add({}, ['${:x}', '--pika:threads=2'], fam='dollar_crash')
+    add({'C16A': ':'}, ['$[${C16A}k]', '--pika:threads=2'], fam='dollar_crash')
+    # settings whose environment variable holds a reference to another variable, against the other sources
+    indirect = {'threads': ['2', '3', '4'], 'scheduler': ['static', 'local', 'local-priority-lifo', 'static-priority'],
+                'small': ['0x18000', '0x20000', '98304'], 'busy': ['1500', '2500', '777'], 'qmax': ['900', '1100']}
+    for n, values in indirect.items():
+        opt, envn, key, _ = SETTINGS[n]
+        for other in ([None, 'cmdini', 'pcoini'] + (['cmdopt'] if opt else [])):
+            v = rng.choice(values)
+            form = rng.choice(['${C16I}', '${C16U:%s}' % v])     # (two levels, ${C16J}, stop at ${C16I}: first character skipped)
+            env = {envn: form, 'C16I': v, 'C16J': '${C16I}'}
+            vals = {'env': v}
+            pco, cmd = [], []
+            if other:
+                w = rng.choice([x for x in values if x != v])
+                vals[other] = w
+                emit(n, {other: w}, env, pco, cmd)
+            if pco:
+                env['PIKA_COMMANDLINE_OPTIONS'] = ' '.join(pco)
+            if n != 'threads':
+                cmd.append('--pika:threads=2')
+            add(env, cmd, {n: vals})
+    # random nests
+    for _ in range(40 if quick else 400):
+        def val(allowed):
+            ps = [p_ for p_ in DOLLAR_PIECES if (not re.match(r'\$\{C16[ABC]\}', p_) or p_[5] in allowed) and 'C16N' not in p_ and 'C16M' not in p_ and '${C16C}' not in p_[1:]]
+            return ''.join(rng.choice(ps) for _ in range(rng.randint(0, 4)))
+        env = {'C16C': val(''), 'C16B': val('C'), 'C16A': val('BC'), 'C16N': rng.choice(['C16A', 'C16C', 'C16U']),
+               'C16M': rng.choice(['A', 'B', 'Z']), 'C16K': rng.choice(['os_threads', 'scheduler', 'nosuch'])}
+        args = [''.join(rng.choice(DOLLAR_PIECES) for _ in range(rng.randint(1, 4))) for _ in range(rng.randint(1, 2))]
+        args = [a for a in args if not a.startswith('-')] or ['${C16A}']
+        add(env, args + ['--pika:threads=2'], {'threads': {'cmdopt': '2'}},
+            fam='dollar_crash' if any('${:' in x or '$[:' in x for x in list(env.values()) + args) else 'dollar_env')
+    return cases
+
+
 def hx(s):
     return s.encode().hex() if s else '-'
 
@@ -461,7 +553,7 @@ def run_real(binary, case):
     try:
         pre = ['taskset', '-c', case['taskset']] if case.get('taskset') else []
         p = subprocess.run(pre + [binary] + case['args'], env=env, stdout=subprocess.PIPE, stderr=subprocess.PIPE,
-                           timeout=40)
+                           timeout=case.get('timeout', 40))
         return p.returncode, p.stdout.decode(errors='replace'), p.stderr.decode(errors='replace')
     except subprocess.TimeoutExpired as e:
         return 124, (e.stdout or b'').decode(errors='replace'), (e.stderr or b'').decode(errors='replace') + '\n[timeout]'
@@ -509,6 +601,8 @@ def classify(rc, out, err):
         o['cls'] = 'hang'
     elif 'STOP' in o['lines'] and 'ARGV' not in o['lines']:
         o['cls'] = 'late_unknown' if 'unrecognised option' in msg else 'late_split'
+    elif 'basic_string::replace' in msg and 'std::out_of_range' in msg:
+        o['cls'] = 'expand_crash'
     elif 'cannot be specified more than once' in msg:
         o['cls'] = 'multiple_occurrences'
     elif 'bad lexical cast' in msg:
@@ -602,6 +696,13 @@ def monitor(case, o, mach, refs=None):
         return [('C16:prepend_glued_late', 'valid configuration rejected by the late handler (stop() = -1): the last token of '
                  'PIKA_COMMANDLINE_OPTIONS %r is glued to the first command-line argument %r'
                  % (case['env']['PIKA_COMMANDLINE_OPTIONS'], case['args'][:1]))]
+    if rejected and o.get('cls') == 'hang' and self_referential(case['env']):
+        return [('C16:expand:self_reference_hang', 'start-up does not end (killed after %s s): an environment variable refers to itself '
+                 'behind the first character of its value, the ini layer scans the substituted text again and again'
+                 % case.get('timeout', 40))]
+    if rejected and o.get('cls') == 'expand_crash' and any('${:' in x or '$[:' in x or ':' in x for x in list(case['env'].values()) + case['args']):
+        return [('C16:expand:colon_out_of_range', 'the process is terminated by std::out_of_range from basic_string::replace: a colon '
+                 'directly behind `${` / `$[` makes find_next(":") compute position -1')]
     if rejected:
         return hits      # other rejections are judged by the correspondence (model says which are legitimate)
     L = o['lines']
@@ -704,7 +805,7 @@ def monitor(case, o, mach, refs=None):
     got_args = [unhx(a) for a in L['ARGV'].get('argv', '').split(',')[1:]]
     if got_args != exp_args:
         bad = [a for a in exp_args if a == '' or any(c in a for c in '"\'\\')]
-        dol = [a for a in exp_args if dollar_word(a)]
+        dol = [a for a in exp_args if dollar_word(a)] or [a for a in exp_args if '${' in a or '$[' in a]
         if dol and not bad:
             hits.append(('C16:app_args:dollar_expanded',
                          'application arguments %r arrive as %r (argument %r is expanded by the ini layer when the rebuilt '
@@ -826,6 +927,10 @@ def run(ctx):
         kws = kw_cases(random.Random(ctx.seed * 104729 + 1601), machs, len(cases), ctx.tier == 'quick')
         cases.extend(kws)
         n += len(kws)
+        # environment values that contain `$` (substituted text is scanned again; looping and crashing inputs)
+        dls = dollar_env_cases(random.Random(ctx.seed * 15485863 + 1611), machs['real'], len(cases), ctx.tier == 'quick')
+        cases.extend(dls)
+        n += len(dls)
         while len(cases) < n:
             c = make_case(rng, mach, len(cases))
             cases.append(c)
@@ -871,6 +976,8 @@ def run(ctx):
             continue
         if ml.endswith('rejected bad_mask'):
             ml = ml.replace('bad_mask', 'bad_cast')
+        if ml.endswith('rejected expand_loop'):
+            ml = ml.replace('expand_loop', 'hang')          # out of fuel in the model = the real start-up never ends
         cmp_impl.append(ol)
         cmp_model.append(ml)
     diffs, ncases = diff_lines(ctx, cmp_impl, cmp_model)
@@ -894,7 +1001,8 @@ def run(ctx):
                     cl = value_class(n, v)
                     if cl:
                         r.count('special=%s:%s:%s' % (n, cl, 'deciding' if s_ == top_ else 'below'))
-        if o.get('cls') in ('hang',) or (o['kind'] == 'rejected' and o['cls'].startswith('other:')):
+        predicted = mmap.get(str(c['id']), '').endswith(('rejected expand_loop', 'rejected expand_crash'))
+        if (o.get('cls') in ('hang',) and not predicted) or (o['kind'] == 'rejected' and o['cls'].startswith('other:')):
             r.hits.append(Hit('corr', 'C16:unexpected_termination', 'case %d: process ended with %s rc=%s'
                               % (c['id'], o.get('cls'), o['rc']), {'harness': 'c16_cfg', 'case': c}))
         for sig, text in monitor(c, o, machs[c['mach']], refs):
